@@ -254,6 +254,8 @@ def body_clip_mesh(ctx, mesh, variant, buffer, via, free=None):
         'fillneg': dict(with_edges=True, start_index=0, fill='attr', fill_value=-1),
         # the optional face-face table is there too (it lists faces that share an *edge*; rings grow over shared nodes)
         'faceface': dict(supply=('edge_node', 'face_face'), fill='nan'),
+        # tables that do not count from the same base: one-based faces, a zero-based face-edge table without the attribute
+        'mixedbase': dict(supply=('edge_node', 'face_edge'), start_index=1, fill='attr', start_index_by_table={'face_edge': 0}),
         # tables stored in the smallest integer type that holds the node numbers
         'int8': dict(supply=('edge_node',), dtype='int8', fill='none'),
     }[variant]
@@ -421,6 +423,10 @@ def cases(tier):
             for via in ('make_clip_mask', 'functions'):
                 yield Case(f'clipmesh:{mesh}:faceface:buf{buffer}:{via}', body_clip_mesh,
                            dict(mesh=mesh, variant='faceface', buffer=buffer, via=via), max_paths=5000)
+    for mesh in (('tqp',) if q else ('tqp', 'qqqtt')):
+        for buffer in (0, 1):
+            yield Case(f'clipmesh:{mesh}:mixedbase:buf{buffer}:make_clip_mask', body_clip_mesh,
+                       dict(mesh=mesh, variant='mixedbase', buffer=buffer, via='make_clip_mask'), max_paths=5000)
     for buffer in (0, 1):
         yield Case(f'clipmesh:grid4:int8:buf{buffer}:make_clip_mask', body_clip_mesh,
                    dict(mesh='grid4', variant='int8', buffer=buffer, via='make_clip_mask', free=(0, 5, 10, 15) if q else (0, 3, 5, 6, 10, 15)), max_paths=5000)
